@@ -832,7 +832,12 @@ impl fmt::Display for Type<'_> {
       }
 
       if self.type_choices.len() > 2 {
-        let _ = write!(type_str, "\n\t/ {}", tc.type1);
+        // a comment already ends its line; a second line break here would only
+        // survive the first formatting pass
+        if !type_str.ends_with('\n') {
+          type_str.push('\n');
+        }
+        let _ = write!(type_str, "\t/ {}", tc.type1);
       } else {
         let _ = write!(type_str, " / {}", tc.type1);
       }
